@@ -10,6 +10,12 @@ Clauses (see notes/C06.md):
   user-override-builtin F every built-in key overridden by a user snippet (property and raw kind)
   builtin-keywords   F  every property snippet x every dash-free keyword it lists x lower/upper/mixed case x
                         `key:kw` / `key-kw` x every syntax x scope in {none, @@property}
+  builtin-inner-keywords F every property snippet x every dash-free keyword it lists *inside* an alternative (placeholder
+                        word of a top-level tabstop, blanks around it not counted; bare word of a several-token alternative) x
+                        case x `key:kw` / `key-kw` x every syntax x scope in {none, @@property}
+  user-keywords      B  random user property snippets (new and overriding keys) listing keywords in every way the table
+                        syntax offers (one-word alternatives, function names, padded / glued tabstop placeholders, words
+                        among several tokens): every listed keyword resolves to itself, scopes none/@@global/@@property
   history-independence B every key in sequences where it occurs several times in different forms (function keyword with
                         arguments, bare keyword, bare key, typed values): as one `+`-joined abbreviation and as a
                         history of calls sharing a `cache`; every occurrence equals the fresh single expansion
@@ -80,6 +86,72 @@ def keywords_of(values):
             if m and m.group(1) not in funcs:
                 funcs.append(m.group(1))
     return words, funcs
+
+
+def top_level_tokens(alt):
+    """the blank- / comma-separated tokens of one alternative; a tabstop `${...}`, a quoted string and a parenthesised
+    argument list are never split (so the blank of `${1:inset }` or of `"Times New Roman"` does not end a token)"""
+    toks, cur, depth, quote, i = [], '', 0, None, 0
+    while i < len(alt):
+        ch = alt[i]
+        if quote:
+            cur += ch
+            if ch == quote:
+                quote = None
+        elif ch in '"\'':
+            quote = ch
+            cur += ch
+        elif alt.startswith('${', i):
+            j, d = i + 2, 1
+            while j < len(alt) and d:
+                d += 1 if alt.startswith('${', j) else -1 if alt[j] == '}' else 0
+                j += 1
+            cur += alt[i:j]
+            i = j - 1
+        elif ch in '()':
+            depth += 1 if ch == '(' else -1
+            cur += ch
+        elif depth == 0 and ch in ' \t,':
+            if cur:
+                toks.append(cur)
+            cur = ''
+        else:
+            cur += ch
+        i += 1
+    if cur:
+        toks.append(cur)
+    return toks
+
+
+ONLY_TABSTOPS_RE = re.compile(r'(?:\$\{\d+(?::[^${}]*)?\})+')
+TABSTOP_TEXT_RE = re.compile(r'\$\{\d+:([^${}]*)\}')
+
+
+def inner_keywords_of(values):
+    """dash-free keywords a property snippet lists *inside* an alternative (keywords_of covers one-word alternatives and
+    function names): (a) the placeholder of a top-level tabstop, surrounding blanks not counted -- `${2:solid}` lists `solid`,
+    `${1:inset }${2:hoff}` lists `inset` and `hoff`; only tokens that consist of tabstops and nothing else are read, so the
+    `fff` of `#${1:fff}`, the `0` of `${1:0}s` and the arguments of a function are not keywords; (b) a bare alphabetic word that is
+    one of several top-level tokens of an alternative -- `Arial, "Helvetica Neue", Helvetica, sans-serif` lists `Arial`, `Helvetica`"""
+    out = []
+    for v in values:
+        toks = top_level_tokens(v)
+        for t in toks:
+            if re.fullmatch(r'[A-Za-z]+', t):
+                if len(toks) > 1 and t not in out:
+                    out.append(t)
+            elif ONLY_TABSTOPS_RE.fullmatch(t):
+                for text in TABSTOP_TEXT_RE.findall(t):
+                    w = text.strip(' \t')
+                    if re.fullmatch(r'[A-Za-z]+', w) and w not in out:
+                        out.append(w)
+    return out
+
+
+def unambiguous(words, funcs):
+    """drop keywords that another listed keyword equals up to letter case (typed in another case they name two keywords)"""
+    low = [w.lower() for w in list(words) + list(funcs)]
+    return [w for w in words if low.count(w.lower()) == 1], [f for f in funcs if low.count(f.lower()) == 1]
 
 
 def case_variants(w):
@@ -234,6 +306,61 @@ def check_keywords(syntax, key):
                 if not ok:
                     return 'expand(%r, syntax=%s, scope=%s): keyword %r listed by %r must resolve to itself: expected %r, got %r' % (
                         abbr, syntax, scope, w, table[key], exp, out)
+    return None
+
+
+def _check_listed(syntax, scopes, key, body, words, funcs, between, after, user=None):
+    """every keyword of `words` / function name of `funcs`, typed in full after `key` in every letter case, in both forms and
+    under every scope of `scopes`, must give `<property><between><keyword as listed><after>`"""
+    from emmet import expand
+    prop = classify(body)[1]
+    cache = {}
+    for w in list(words) + list(funcs):
+        for typed in case_variants(w):
+            for scope in scopes:
+                for sep in (':', '-'):
+                    abbr = key + sep + typed
+                    out = expand(abbr, _config(syntax, scope, user, cache))
+                    if w in words:
+                        exp = prop + between + w + after
+                        ok = out == exp
+                    else:
+                        exp = prop + between + w + '(...)' + after
+                        ok = isinstance(out, str) and out.startswith(prop + between) and out.endswith(after) and \
+                            norm(defield(out[len(prop + between):])).startswith(w + '(')
+                    if not ok:
+                        return 'expand(%r, syntax=%s, scope=%s%s): keyword %r listed by %r must resolve to itself: expected %r, got %r' % (
+                            abbr, syntax, scope, ', user snippets %r' % (user,) if user else '', w, body, exp, out)
+    return None
+
+
+def check_inner_keywords(syntax, key):
+    """built-in property snippet `key`: the keywords it lists inside an alternative (tabstop placeholders, words of a
+    several-token alternative)"""
+    table, between, after = _table(syntax)
+    kind = classify(table[key])
+    if kind[0] != 'prop':
+        return None
+    words, funcs = keywords_of(kind[2])
+    inner, _ = unambiguous([w for w in inner_keywords_of(kind[2]) if w not in words], words + funcs)
+    return _check_listed(syntax, (None, '@@property'), key, table[key], inner, [], between, after)
+
+
+def check_user_keywords(syntax, user):
+    """user: {key: body}.  Every dash-free keyword listed by every property snippet of the user table (one-word alternatives,
+    function names, tabstop placeholders, words of several-token alternatives) resolves to itself after the snippet's key"""
+    table, between, after = _table(syntax, user)
+    for key, body in user.items():
+        if table.get(key) != body:
+            return 'merged table: user snippet %r does not replace / add the entry (found %r)' % (key, table.get(key))
+        kind = classify(body)
+        if kind[0] != 'prop':
+            continue
+        words, funcs = keywords_of(kind[2])
+        words, funcs = unambiguous(words + [w for w in inner_keywords_of(kind[2]) if w not in words], funcs)
+        err = _check_listed(syntax, (None, '@@global', '@@property'), key, body, words, funcs, between, after, user)
+        if err:
+            return err
     return None
 
 
@@ -408,6 +535,70 @@ def gen_user_tables(seed, n, bk):
         yield (syntax, scope, user, probe)
 
 
+KW_WORDS = ['inset', 'hoff', 'voff', 'blur', 'solid', 'dashed', 'Arial', 'Helvetica', 'serif', 'name', 'ease', 'linear', 'top',
+            'left', 'center', 'bold', 'italic', 'both', 'forwards', 'normal', 'row', 'wrap', 'Times', 'fn', 'x', 'tx', 'none',
+            'auto', 'zzkw', 'ButtonFace', 'currentColor', 'b', 'Qq']
+KW_FUNCS = ['url', 'scale', 'rotateX', 'minmax', 'myfn', 'attr']
+KW_FILLERS = ['${%d:1px}', '${%d:#000}', '${%d}', '#000', '${%d:0}s', '"Helvetica Neue"', '${%d:sans-serif}', "'x y'", '#${%d:fff}']
+KW_PADS = [('', ''), ('', ''), (' ', ''), ('', ' '), (' ', ' '), ('', '  '), ('\t', '')]
+
+
+def random_keyword_snippet(rnd):
+    """a property snippet whose alternatives list keywords in every way the table syntax offers: one-word alternatives,
+    function names, tabstop placeholders (with and without blanks around the word, also glued to the next tabstop like the
+    built-in `${1:inset }${2:hoff}`), bare words among several blank- / comma-separated tokens"""
+    pool = rnd.sample(KW_WORDS, rnd.randint(2, 8))          # distinct, also up to letter case
+    funcs = rnd.sample(KW_FUNCS, 2)
+    alts = []
+    tab = [0]
+
+    def stop(fmt):
+        tab[0] += 1
+        return fmt % tab[0] if '%d' in fmt else fmt
+
+    while pool:
+        r = rnd.random()
+        if r < 0.3:
+            alts.append(pool.pop())
+        elif r < 0.4 and funcs:
+            alts.append('%s(%s)' % (funcs.pop(), rnd.choice(['', '${1}', '${1:a}, ${2:b}', '${0}'])))
+        else:
+            tab[0] = 0
+            toks = []
+            for _ in range(rnd.randint(1, 4)):
+                q = rnd.random()
+                if q < 0.5 and pool:
+                    lead, trail = rnd.choice(KW_PADS)
+                    tok = stop('${%d:' + lead + pool.pop() + trail + '}')
+                    if trail and pool and rnd.random() < 0.6:       # glued: the blank inside the placeholder separates
+                        tok += stop('${%d:' + pool.pop() + rnd.choice(['', ' ']) + '}')
+                    toks.append(tok)
+                elif q < 0.75 and pool:
+                    toks.append(pool.pop())
+                else:
+                    toks.append(stop(rnd.choice(KW_FILLERS)))
+            alts.append(rnd.choice([' ', ' ', ', ']).join(toks))
+    rnd.shuffle(alts)
+    return rnd.choice(USER_PROPS) + rnd.choice([':', ': ']) + '|'.join(alts) + rnd.choice(['', '', ';'])
+
+
+def gen_keyword_tables(seed, n, bk):
+    rnd = random.Random(seed * 7919 + 6)
+    for i in range(n):
+        syntax = STYLESHEET_SYNTAXES[i % len(STYLESHEET_SYNTAXES)]
+        user = {}
+        for _ in range(rnd.randint(1, 2)):
+            if rnd.random() < 0.4:
+                key = rnd.choice([k for k in bk[syntax] if k != 'lg'])      # `lg`: known finding, clause user-override-builtin
+            else:
+                while True:
+                    key = ''.join(rnd.choice('abcdefghijklmnopqrstuvwxyz') for _i in range(rnd.randint(2, 6)))
+                    if key not in bk[syntax] and key != 'lg' and key not in user:
+                        break
+            user[key] = random_keyword_snippet(rnd)
+        yield (syntax, user)
+
+
 def check_override(syntax, key, body):
     """a user snippet under a built-in key replaces the built-in one"""
     return check_user_table(syntax, None, {key: body}, [])
@@ -475,6 +666,30 @@ def run(tier, seed):
                'a case is (syntax, key) with all keyword x case x form x scope expansions checked inside: the value must be the keyword '
                'as listed (a function name: `name(`...)', exhaustive=True)
     run_parallel(c, 'bounded.c06', 'check_keywords', ((s, k) for s in STYLESHEET_SYNTAXES for k in bk[s]), chunk=20)
+    out.append(c.done())
+
+    c = Clause('builtin-inner-keywords', 'F', 'every property snippet of the built-in table, every dash-free keyword it lists inside an '
+               'alternative: the placeholder word of a top-level tabstop (blanks around the word not counted) and every bare word of an '
+               'alternative with several blank- / comma-separated tokens',
+               'x case variants {as listed, lower, UPPER, Capitalized, aLtErNaTiNg} x forms `key:kw`, `key-kw` x syntaxes %r x scopes '
+               '[none, @@property]' % (STYLESHEET_SYNTAXES,),
+               'a case is (syntax, key) with all keyword x case x form x scope expansions checked inside: the output must be '
+               '`<property><between><keyword as listed><after>` exactly', exhaustive=True)
+    run_parallel(c, 'bounded.c06', 'check_inner_keywords', ((s, k) for s in STYLESHEET_SYNTAXES for k in bk[s]), chunk=40)
+    out.append(c.done())
+
+    n = 300 if quick else 12000
+    c = Clause('user-keywords', 'B', 'random.Random(seed) user tables of 1..2 property snippets (40%% overriding a built-in key, else a new key of '
+               '2..6 letters) whose alternatives list 2..8 keywords from a pool of %d words in every way the table syntax offers: one-word '
+               'alternatives, function names, tabstop placeholders with and without blanks / a tab around the word (also glued '
+               '`${1:w }${2:v}`), bare words among several blank- or comma-separated tokens; fillers %r'
+               % (len(KW_WORDS), KW_FILLERS),
+               '%d tables, seed %d, syntax cycling through %r; per keyword: case variants x `key:kw`, `key-kw` x scopes [none, @@global, '
+               '@@property]' % (n, seed, STYLESHEET_SYNTAXES),
+               'a case is (syntax, user table): the merged table holds the user entries and every listed dash-free keyword (read from the '
+               'snippet text by keywords_of + inner_keywords_of), typed in full in any letter case after the key, gives '
+               '`<property><between><keyword as listed><after>` (function name: the value starts with `name(`)', exhaustive=False)
+    run_parallel(c, 'bounded.c06', 'check_user_keywords', gen_keyword_tables(seed, n, bk), chunk=10)
     out.append(c.done())
 
     hsyn = ['css', 'stylus'] if quick else STYLESHEET_SYNTAXES
